@@ -29,6 +29,8 @@ const (
 	OpArray     OpKind = "AsArray"
 	OpIter      OpKind = "Iterate"
 	OpRemoveAll OpKind = "RemoveAll"
+	OpSignal    OpKind = "SignalPhase" // the setup thread has finished (not a queue call)
+	OpAwait     OpKind = "AwaitPhase"  // wait for the setup thread (not a queue call)
 )
 
 type Op struct {
@@ -186,6 +188,20 @@ func Programs(tier string) []Prog {
 	}
 	// ... and a queue that is closed, emptied, used again and closed again must end its consumers
 	add(Prog{Family: "close-removeall-reuse-seq", Capacity: 2, Scripts: []Script{{Name: "S", Ops: []Op{{OpAdd, 1}, {Kind: OpClose}, {Kind: OpRemoveAll}, {OpAdd, 2}, {Kind: OpClose}, {Kind: OpRem}, {Kind: OpRem}}}}})
+	// a RemoveAll that has COMPLETED before anything else starts: the first calls afterwards come from different goroutines
+	for _, c := range caps {
+		await := Op{Kind: OpAwait}
+		add(Prog{Family: "after-removeall", Capacity: c, Scripts: []Script{
+			{Name: "S", Ops: []Op{{OpAdd, 1}, {Kind: OpRemoveAll}, {Kind: OpSignal}}},
+			{Name: "P1", Producer: true, Ops: []Op{await, {OpAdd, 11}}},
+			{Name: "C1", Ops: []Op{await, {Kind: OpRem}}}}})
+		add(Prog{Family: "after-removeall", Capacity: c, WellFormed: false, Scripts: []Script{
+			{Name: "S", Ops: []Op{{Kind: OpRemoveAll}, {Kind: OpSignal}}},
+			{Name: "P1", Producer: true, Ops: []Op{await, {OpAdd, 11}}},
+			{Name: "P2", Producer: true, Ops: []Op{await, {OpAdd, 21}}},
+			{Name: "K", Ops: []Op{{Kind: OpWaitProd}, {Kind: OpClose}}},
+			{Name: "D1", Ops: []Op{await, {Kind: OpDrain}}}}})
+	}
 	// capacity 0 means the default capacity; emptying such a queue must leave a usable queue
 	add(Prog{Family: "capacity0-removeall-seq", Capacity: 0, Scripts: []Script{{Name: "S", Ops: []Op{{OpAdd, 1}, {Kind: OpRemoveAll}, {OpAdd, 2}, {OpAdd, 3}, {Kind: OpRem}, {Kind: OpSize}}}}})
 	add(Prog{Family: "capacity0", Capacity: 0, Scripts: []Script{producer(1, 2), consumer(1, 2)}})
@@ -252,6 +268,8 @@ func (p Prog) Build(judge func(p Prog, h *History, ex *rt.Exec) []string) rt.Pro
 		q := col.Queue[int](common.N()).MakeWithCapacity(uint(p.Capacity))
 		h := &History{}
 		var prodWG rt.WaitGroup
+		var phase rt.WaitGroup
+		phase.Add(1)
 		nprod := 0
 		for _, s := range p.Scripts {
 			if s.Producer {
@@ -269,6 +287,14 @@ func (p Prog) Build(judge func(p Prog, h *History, ex *rt.Exec) []string) rt.Pro
 				for _, op := range s.Ops {
 					if op.Kind == OpWaitProd {
 						prodWG.Wait()
+						continue
+					}
+					if op.Kind == OpSignal {
+						phase.Done()
+						continue
+					}
+					if op.Kind == OpAwait {
+						phase.Wait()
 						continue
 					}
 					if op.Kind == OpDrain {
